@@ -47,14 +47,14 @@ PROPS = {
     },
     'C11': {
         'modules': ['SE.Props.C11', 'SE.Gen.TieMapper'],
-        'streams': [{'component': 'mapper_c11', 'note_kinds': {'tmpl'}}],
+        'streams': [{'component': 'mapper_c11', 'note_kinds': {'tmpl'}}, {'component': 'namerune'}],
         'level': 'proof',
         'trusted_base': ["fmt.Sprintf is modelled for %s and %% only; results of templates that reach other % sequences are not compared (model answers `?`)", "regexp.Expand template syntax modelled from the Go source", "Go regexp semantics via the rx oracle"],
         'assumptions': [],
     },
     'C13': {
         'modules': ['SE.Props.C13'],
-        'streams': [{'component': 'mapper_c13', 'note_kinds': {'fresh'}}],
+        'streams': [{'component': 'mapper_c13', 'note_kinds': {'fresh'}}, {'component': 'binary', 'confirm': True, 'seed_off': 1300}],
         'level': 'proof',
         'trusted_base': ["groupcache lru.Cache (third party) modelled from its source", "Go map iteration order of the random-replacement eviction = oracle argument"],
         'assumptions': [],
@@ -96,7 +96,7 @@ PROPS = {
     },
     'C03': {
         'modules': ['SE.Props.C03', 'SE.Gen.TieRegistry'],
-        'streams': [{'component': 'pipe_c03', 'note_kinds': {'gather'}}],
+        'streams': [{'component': 'pipe_c03', 'note_kinds': {'gather'}}, {'component': 'binary_c03', 'confirm': True, 'note_kinds': {'gather'}}],
         'level': 'proof',
         'trusted_base': ["client_golang v1.22.0 (vector constructors, child creation and its panics, counter/gauge/histogram/summary updates, Delete, Gather's family checks) and perks' Query fast path are modelled by hand from their sources (SE/Model/Registry.lean)", 'FNV-64 label-hash collisions assumed away', 'IEEE float64 = Lean Float in the driver; strconv.ParseFloat and regexp results shipped by the harness', 'yaml.v2 decodes the rendered configuration to the intended fields'],
         'assumptions': [],
@@ -145,7 +145,8 @@ PROPS = {
     },
     'C17': {
         'modules': ['SE.Props.C17', 'SE.Gen.TieRelay'],
-        'streams': [{'component': 'relay', 'confirm': True}, {'component': 'framerelay', 'confirm': True}],
+        'streams': [{'component': 'relay', 'confirm': True}, {'component': 'framerelay', 'confirm': True},
+                    {'component': 'binary', 'confirm': True, 'seed_off': 700}],
         'level': 'proof',
         'trusted_base': ["Go `select` picks any ready case; channel/goroutine semantics as encoded in the step relation of SE/Model/Relay.lean", "loopback UDP delivers datagrams intact and in order", "the deterministic stream lets the sender take each line before the next operation (hook VerifPending); other schedules are covered only by the model's theorems"],
         'assumptions': [],
@@ -153,7 +154,8 @@ PROPS = {
     'C18': {
         'modules': ['SE.Props.C18', 'SE.Gen.TieDeps', 'SE.Gen.TieSync'],
         'streams': [{'component': 'frame', 'confirm': True, 'note_kinds': {'frame'}}, {'component': 'udpq', 'confirm': True},
-                    {'component': 'tcpconc', 'confirm': True}, {'component': 'framerelay', 'confirm': True}],
+                    {'component': 'tcpconc', 'confirm': True}, {'component': 'framerelay', 'confirm': True},
+                    {'component': 'binary', 'confirm': True, 'seed_off': 300}],
         'level': 'proof',
         'trusted_base': ["bufio.Reader.ReadLine (4096-byte buffer) modelled from the Go standard library source at the level of buffer + chunks", "the kernel delivers loopback datagrams intact and TCP bytes in order; real TCP segmentation is whatever the kernel does with the generated writes", "goroutine scheduling of reader/processor is in the model as an arbitrary operation sequence; concurrent TCP connections are modelled as independent per-connection runs, justified by the regenerated fact that listener methods write no receiver field (SE.Gen.Tie.listeners_keep_no_state) and sampled by the tcpconc stream"],
         'assumptions': [],
